@@ -35,6 +35,12 @@ def runner_facts(prog, cls):
                     t = n.targets[0]
                     if isinstance(t, ast.Tuple) and isinstance(t.elts[0], ast.Attribute) and util.dotted(t.elts[0].value) == "self":
                         facts["submit_channel"] = t.elts[0].attr
+                    elif isinstance(t, ast.Tuple) and isinstance(t.elts[0], ast.Name):
+                        for a in ast.walk(fi.node):
+                            if isinstance(a, ast.Assign) and isinstance(a.value, ast.Name) and a.value.id == t.elts[0].id:
+                                for tt in a.targets:
+                                    if isinstance(tt, ast.Attribute) and util.dotted(tt.value) == "self":
+                                        facts["submit_channel"] = tt.attr
             # monitors: methods invoking their `payload` parameter
             params = fi.params()
             if fi.name != "run_payload" and params:
